@@ -1049,6 +1049,7 @@ FreeBlock *Backend::doCoalesc(FreeBlock *fBlock, MemRegion **mRegion)
 
     fBlock->markCoalescing(resSize);
     resBlock->blockInBin = false;
+    __TBB_VERIF_POINT(vp_tm_coalesce, fBlock, 0);
 
     // coalescing with left neighbor
     size_t leftSz = fBlock->trySetLeftUsed(GuardedSize::COAL_BLOCK);
@@ -1073,6 +1074,7 @@ FreeBlock *Backend::doCoalesc(FreeBlock *fBlock, MemRegion **mRegion)
         }
     }
     // coalescing with right neighbor
+    __TBB_VERIF_POINT(vp_tm_coalesce, fBlock, 1);
     FreeBlock *right = fBlock->rightNeig(fBlock->sizeTmp);
     size_t rightSz = right->trySetMeUsed(GuardedSize::COAL_BLOCK);
     if (rightSz != GuardedSize::LOCKED) {
@@ -1195,6 +1197,7 @@ bool Backend::coalescAndPutList(FreeBlock *list, bool forceCoalescQDrop, bool re
         // because after a block is free it can be coalesced, and
         // using its pointer became unsafe.
         // Remember that coalescing is not done under any global lock.
+        __TBB_VERIF_POINT(vp_tm_coalesce, toRet, 2);
         toRet->setMeFree(currSz);
         toRet->rightNeig(currSz)->setLeftFree(currSz);
     }
